@@ -57,6 +57,7 @@ type GenSigningInfo struct {
 type Genesis struct {
 	TimeUnix  int64   `json:"time_unix"`
 	Balances  []int64 `json:"balances"` // per account index
+	Dust      []int64 `json:"dust,omitempty"` // per account: balance in a second denomination ("dust")
 	KeyTypes  []string `json:"key_types,omitempty"` // per account: "ed" (default) | "secp"
 	Validators []GenVal `json:"validators"`
 	DAOTokens int64 `json:"dao_tokens"`
@@ -115,6 +116,7 @@ type TxSpec struct {
 	Amount string `json:"amount,omitempty"` // decimal integer (may exceed int64) or decimal fraction for burn severity
 	Fee    int64  `json:"fee"`              // -1 = exactly the required fee; -2 = empty fee
 	FeeDenom string `json:"fee_denom,omitempty"`
+	FeeDust  int64  `json:"fee_dust,omitempty"` // additional fee coin in the second denomination
 	Memo   string `json:"memo,omitempty"`
 	Entropy int64 `json:"entropy"`
 	// signing
